@@ -7,7 +7,7 @@
 //  * rewrite_authorship_after_commit_amend (whole function): the note is written for the AMENDED commit, serialised from the
 //    log split off the ORIGINAL commit's blame + working log over (files of the amended commit + files the working log touched),
 //    with base_commit_sha set to the amended commit; the uncommitted rest becomes INITIAL of the AMENDED commit; the original's
-//    working log is deleted only after both writes.
+//    working log is deleted only after both writes, and NOT when the amend reproduced the same commit id.
 //  * prepare_working_log_after_squash (whole function): INITIAL of the base head = merge(base head FIRST, source head) over exactly the
 //    files that differ between the two heads, on the staged content, converted for (base, base).
 //  * migrate_working_log_after_rebase (whole function): rename when only the old working log exists; otherwise the old INITIAL is
@@ -70,6 +70,7 @@ pub uninterp spec fn cid(c: Commit) -> Seq<char>;
 pub uninterp spec fn cidv(c: CommitId) -> Seq<char>;
 /// state at entry (ASSUMED not to change under the function other than by its own steps)
 pub uninterp spec fn had_wl(head: Seq<char>) -> bool;                                   // RepoStorage::has_working_log
+pub uninterp spec fn had_initial(head: Seq<char>) -> bool;                              // that head's log has an INITIAL file
 pub uninterp spec fn wl_initial(head: Seq<char>) -> InitialAttributions;                // read_initial_attributions of that head's log
 pub uninterp spec fn wl_touched(head: Seq<char>) -> Option<ISet<Seq<char>>>;             // all_touched_files of that head's log
 pub uninterp spec fn note_log(commit: Seq<char>) -> Option<AuthorshipLog>;              // the commit's note, parsed
@@ -111,6 +112,8 @@ pub enum Step {
     NoteBatch { entries: Seq<(Seq<char>, Seq<char>)> },
     InitialWrite { head: Seq<char>, files: InitFiles, prompts: InitPrompts },
     DeleteWl { head: Seq<char> },
+    /// only the INITIAL file of that head's working log; checkpoints stay
+    RemoveInitial { head: Seq<char> },
     RenameWl { from: Seq<char>, to: Seq<char> },
 }
 /// the step was carried out successfully during this run (only ever used positively)
@@ -144,7 +147,8 @@ pub open spec fn amend_writes_done(o: Seq<char>, a: Seq<char>, au: Seq<char>) ->
     &&& done(Step::NoteWrite { commit: a, text: amend_note(o, a, au) })
     &&& !files_empty(amend_split(o, a, au).1.files) ==> done(Step::InitialWrite { head: a, files: amend_split(o, a, au).1.files, prompts: amend_split(o, a, au).1.prompts })
 }
-pub open spec fn amend_effects(o: Seq<char>, a: Seq<char>, au: Seq<char>) -> bool { amend_writes_done(o, a, au) && done(Step::DeleteWl { head: o }) }
+/// the original's log is gone afterwards - unless it IS the amended commit's log (same id), which keeps the INITIAL just written
+pub open spec fn amend_effects(o: Seq<char>, a: Seq<char>, au: Seq<char>) -> bool { amend_writes_done(o, a, au) && (o != a ==> done(Step::DeleteWl { head: o })) }
 
 // ---------------------------------------------------------------- squash: what is prepared from what
 pub open spec fn squash_files(s: Seq<char>, b: Seq<char>) -> Seq<Seq<char>> { diff_files(s, b).unwrap() }
@@ -185,15 +189,15 @@ pub open spec fn allowed(op: Op, s: Step) -> bool {
             Step::NoteWrite { commit, text } => commit == amended && text == amend_note(original, amended, author),
             // the uncommitted rest is INITIAL of the AMENDED commit - never of the original
             Step::InitialWrite { head, files, prompts } => head == amended && files == amend_split(original, amended, author).1.files && prompts == amend_split(original, amended, author).1.prompts,
-            // the original's working log goes only once everything built from it has been written - and it must not be the log the rest
-            // was just written to (original == amended: see REPORT.md, finding 1; the code does NOT check this, it is an ASSUMPTION of the contracts below)
+            // the original's working log goes only once everything built from it has been written - and NEVER when it is the log the rest
+            // was just written to (an amend that reproduces the same commit id: REPORT.md, finding 1, repaired in /repo f5dd08f3)
             Step::DeleteWl { head } => head == original && original != amended && amend_writes_done(original, amended, author),
             _ => false,
         },
         Op::Squash { source_head, base_head, author } => match s {
-            // NOT derived from the property, recorded as a finding (REPORT.md): the base head's working log - pending checkpoints of
-            // files the squash does not touch included - is deleted before the squash's INITIAL is prepared
-            Step::DeleteWl { head } => head == base_head,
+            // only a stale INITIAL of the base head (left by an abandoned squash) may be removed; the base head's working log with its pending
+            // checkpoints is NEVER deleted (REPORT.md, finding 2, repaired in /repo 8dfb71e4)
+            Step::RemoveInitial { head } => head == base_head,
             Step::InitialWrite { head, files, prompts } => head == base_head && files == squash_split(source_head, base_head).1.files && prompts == squash_split(source_head, base_head).1.prompts,
             _ => false,
         },
@@ -240,7 +244,8 @@ pub open spec fn completed(op: Op) -> bool {
     match op {
         Op::Commit { base, sha, author, quiet } => done(Step::PostCommit { base, sha, author, quiet }),
         Op::Amend { original, amended, author } => amend_effects(original, amended, author),
-        Op::Squash { source_head, base_head, author } => done(Step::DeleteWl { head: base_head }) && squash_effects(source_head, base_head),
+        // a stale INITIAL is gone before the fresh one is prepared (C03: it would credit the abandoned squash's session with other text)
+        Op::Squash { source_head, base_head, author } => (had_wl(base_head) && had_initial(base_head) ==> done(Step::RemoveInitial { head: base_head })) && squash_effects(source_head, base_head),
         Op::Rebase { original_head, new_head, original_commits, new_commits, author } => done(Step::RebaseNotes { original_head, original_commits, new_commits, author }) && migrate_effects(original_head, new_head),
         Op::CherryPick { source_commits, new_commits, author } => done(Step::CherryPickNotes { source_commits, new_commits, author }),
         Op::Remap { pairs, notes } => true,
@@ -261,15 +266,17 @@ proof fn theorem_amend_targets(ev: RewriteLogEvent, author: Seq<char>, quiet: bo
     ensures
         s is NoteWrite ==> s->NoteWrite_commit == ev->CommitAmend_commit_amend.amended_commit_sha@,
         s is InitialWrite ==> s->InitialWrite_head == ev->CommitAmend_commit_amend.amended_commit_sha@,
-        s is DeleteWl ==> s->DeleteWl_head == ev->CommitAmend_commit_amend.original_commit@,
-        !(s is RenameWl) && !(s is NoteBatch) && !(s is PostCommit) && !(s is RebaseNotes) && !(s is CherryPickNotes),
+        s is DeleteWl ==> s->DeleteWl_head == ev->CommitAmend_commit_amend.original_commit@ && s->DeleteWl_head != ev->CommitAmend_commit_amend.amended_commit_sha@,
+        !(s is RemoveInitial) && !(s is RenameWl) && !(s is NoteBatch) && !(s is PostCommit) && !(s is RebaseNotes) && !(s is CherryPickNotes),
 {}
 /// squash: the only INITIAL written is the BASE head's; no note is written before the squash is committed
 proof fn theorem_squash_targets(ev: RewriteLogEvent, author: Seq<char>, quiet: bool, s: Step)
     requires ev is MergeSquash, allowed(op_of(ev, author, quiet), s),
     ensures
         s is InitialWrite ==> s->InitialWrite_head == ev->MergeSquash_merge_squash.base_head@,
-        !(s is NoteWrite) && !(s is NoteBatch) && !(s is RenameWl),
+        s is RemoveInitial ==> s->RemoveInitial_head == ev->MergeSquash_merge_squash.base_head@,
+        // no working log is deleted or renamed by a squash: pending checkpoints survive
+        !(s is DeleteWl) && !(s is NoteWrite) && !(s is NoteBatch) && !(s is RenameWl),
 {}
 /// rebase: pending work only ever moves from the ORIGINAL head to the NEW head, and the old log is not deleted when it could be renamed
 proof fn theorem_rebase_direction(ev: RewriteLogEvent, author: Seq<char>, quiet: bool, s: Step)
@@ -284,8 +291,12 @@ proof fn theorem_rebase_direction(ev: RewriteLogEvent, author: Seq<char>, quiet:
 // ---------------------------------------------------------------- stubs (rule O1): effects carry `allowed` as PRECONDITION and `done` as postcondition
 #[verifier::external_body] fn debug_log(s: &str) { unimplemented!() }
 #[verifier::external_body] fn opq_msg() -> (r: &'static str) { unimplemented!() }
-/// `a == b` on &str
-#[verifier::external_body] fn opq_str_eq(a: &str, b: &str) -> (r: bool) ensures r == (a@ == b@), { unimplemented!() }
+/// `log.initial_file.exists()`
+#[verifier::external_body] fn opq_initial_exists(w: &PersistedWorkingLog) -> (r: bool) ensures r == had_initial(wl_head(*w)), { unimplemented!() }
+/// `std::fs::remove_file(&log.initial_file)` (with the io::Error -> GitAiError conversion of `?`)
+#[verifier::external_body] fn opq_remove_initial(w: &PersistedWorkingLog) -> (r: Result<(), GitAiError>)
+    requires allowed(cur_op(), Step::RemoveInitial { head: wl_head(*w) }),
+    ensures r is Ok ==> done(Step::RemoveInitial { head: wl_head(*w) }), { unimplemented!() }
 /// `smol::block_on(async { F.await })` == F's output
 fn sync_block<T>(x: T) -> (r: T) ensures r == x, { x }
 impl<T> Fut<T> { pub fn awaited(self) -> (r: T) ensures r == self.v, { self.v } }
@@ -566,7 +577,7 @@ pub enum StashOperation {
 }
 //#end
 
-//#item file=src/authorship/rebase_authorship.rs kind=fn name=rewrite_authorship_if_needed opaque='[{"expr": "&format!( \"Ammended commit {} now has authorship log {}\", &commit_amend.original_commit, &commit_amend.amended_commit_sha )", "call": "opq_msg()"}, {"expr": "&format!( \"✓ Prepared authorship attributions for merge --squash of {} into {}\", merge_squash.source_branch, merge_squash.base_branch )", "call": "opq_msg()"}, {"expr": "&format!( \"✓ Rewrote authorship for {} rebased commits\", rebase_complete.new_commits.len() )", "call": "opq_msg()"}, {"expr": "&format!( \"✓ Rewrote authorship for {} cherry-picked commits\", cherry_pick_complete.new_commits.len() )", "call": "opq_msg()"}]'
+//#item file=src/authorship/rebase_authorship.rs kind=fn name=rewrite_authorship_if_needed opaque='[{"expr": "base_log.initial_file.exists()", "call": "opq_initial_exists(&base_log)"}, {"expr": "std::fs::remove_file(&base_log.initial_file)", "call": "opq_remove_initial(&base_log)"}, {"expr": "&format!( \"Ammended commit {} now has authorship log {}\", &commit_amend.original_commit, &commit_amend.amended_commit_sha )", "call": "opq_msg()"}, {"expr": "&format!( \"✓ Prepared authorship attributions for merge --squash of {} into {}\", merge_squash.source_branch, merge_squash.base_branch )", "call": "opq_msg()"}, {"expr": "&format!( \"✓ Rewrote authorship for {} rebased commits\", rebase_complete.new_commits.len() )", "call": "opq_msg()"}, {"expr": "&format!( \"✓ Rewrote authorship for {} cherry-picked commits\", cherry_pick_complete.new_commits.len() )", "call": "opq_msg()"}]'
 pub fn rewrite_authorship_if_needed(
     repo: &Repository,
     last_event: &RewriteLogEvent,
@@ -574,10 +585,7 @@ pub fn rewrite_authorship_if_needed(
     _full_log: &Vec<RewriteLogEvent>,
     supress_output: bool,
 ) -> (r_: Result<(), GitAiError>)
-//@     requires
-//@         cur_op() == op_of(*last_event, commit_author@, supress_output),
-//@         // ASSUMED (REPORT.md finding 1): the amended commit is a different commit
-//@         last_event is CommitAmend ==> last_event->CommitAmend_commit_amend.original_commit@ != last_event->CommitAmend_commit_amend.amended_commit_sha@,
+//@     requires cur_op() == op_of(*last_event, commit_author@, supress_output),
 //@     ensures r_ is Ok ==> completed(op_of(*last_event, commit_author@, supress_output)),
 {
     match last_event {
@@ -602,10 +610,17 @@ pub fn rewrite_authorship_if_needed(
             debug_log(opq_msg());
         }
         RewriteLogEvent::MergeSquash { merge_squash } => {
-            // --squash always fails if repo is not clean
-            // this clears old working logs in the event you reset, make manual changes, reset, try again
-            repo.storage
-                .delete_working_log_for_base_commit(&merge_squash.base_head)?;
+            // --squash only refuses when local changes overlap the merged files: pending checkpoints of
+            // other files must survive. Drop just a stale INITIAL left by an earlier, abandoned squash
+            // (prepare_working_log_after_squash writes a fresh one only when the squash has AI lines).
+            if repo.storage.has_working_log(&merge_squash.base_head) {
+                let base_log = repo
+                    .storage
+                    .working_log_for_base_commit(&merge_squash.base_head);
+                if opq_initial_exists(&base_log) {
+                    opq_remove_initial(&base_log)?;
+                }
+            }
 
             // Prepare INITIAL attributions from the squashed changes
             prepare_working_log_after_squash(
@@ -652,7 +667,7 @@ pub fn rewrite_authorship_if_needed(
     Ok(())
 }
 //#end
-//#item file=src/authorship/rebase_authorship.rs kind=fn name=migrate_working_log_after_rebase opaque='[{"expr": "original_head == new_head", "call": "opq_str_eq(original_head, new_head)"}, {"expr": "&format!( \"Migrated INITIAL attributions from {} to {}\", original_head, new_head )", "call": "opq_msg()"}, {"expr": "&format!( \"No INITIAL attributions to migrate from {} (dropping old working log)\", original_head )", "call": "opq_msg()"}]'
+//#item file=src/authorship/rebase_authorship.rs kind=fn name=migrate_working_log_after_rebase opaque='[{"expr": "&format!( \"Migrated INITIAL attributions from {} to {}\", original_head, new_head )", "call": "opq_msg()"}, {"expr": "&format!( \"No INITIAL attributions to migrate from {} (dropping old working log)\", original_head )", "call": "opq_msg()"}]'
 fn migrate_working_log_after_rebase(
     repo: &Repository,
     original_head: &str,
@@ -661,7 +676,7 @@ fn migrate_working_log_after_rebase(
 //@     requires cur_op() is Rebase, cur_op()->Rebase_original_head == original_head@, cur_op()->Rebase_new_head == new_head@,
 //@     ensures r_ is Ok ==> migrate_effects(original_head@, new_head@),
 {
-    if opq_str_eq(original_head, new_head) {
+    if original_head == new_head {
         return Ok(());
     }
 
@@ -695,10 +710,7 @@ pub fn rewrite_authorship_after_commit_amend(
     amended_commit: &str,
     _human_author: String,
 ) -> (r_: Result<AuthorshipLog, GitAiError>)
-//@     requires
-//@         cur_op() == (Op::Amend { original: original_commit@, amended: amended_commit@, author: _human_author@ }),
-//@         // ASSUMED, not established by any caller (REPORT.md finding 1): an amend that reproduces the same commit id
-//@         original_commit@ != amended_commit@,
+//@     requires cur_op() == (Op::Amend { original: original_commit@, amended: amended_commit@, author: _human_author@ }),
 //@     ensures
 //@         r_ is Ok ==> amend_effects(original_commit@, amended_commit@, _human_author@),
 //@         r_ matches Ok(l) ==> logv(l) == rebased(amend_split(original_commit@, amended_commit@, _human_author@).0, amended_commit@),
@@ -773,9 +785,12 @@ pub fn rewrite_authorship_after_commit_amend(
             .write_initial_attributions(initial_attributions.files, initial_attributions.prompts)?;
     }
 
-    // Clean up old working log
-    repo.storage
-        .delete_working_log_for_base_commit(original_commit)?;
+    // Clean up old working log (an amend that changes nothing within the same second reproduces the
+    // same commit id: the log just written to is then the "old" one and must stay)
+    if original_commit != amended_commit {
+        repo.storage
+            .delete_working_log_for_base_commit(original_commit)?;
+    }
 
     Ok(authorship_log)
 }
